@@ -16,7 +16,8 @@ RULE = ('start-up misuse: every combination of per-test-case faults (missing, un
         'CVise.reduce in a child process that has dropped root (os.access grants everything to root), with a before/after snapshot; '
         'pass-argument misuse: every Python pass class x (each accepted argument, a bogus one, None) through the real run_pass; '
         'observed: exception class, str() of it, the item it names, working directory snapshot; the error kind and the offending '
-        'item are compared with the Coq decision table; non-trivial = distinct misuse combinations')
+        'item are compared with the Coq decision table; non-trivial = distinct misuse combinations'
+        ' Also: an uninteresting input answered with the --also-interesting exit code, and by a test that appends to its own copy of the input (same file system).')
 TRUSTED = ['decision-table model coq/Driver/Startup.v tied to testing.py / cvise.py by this correspondence run',
            'the child process runs as `nobody` on a scratch tree it owns (for the permission classes)']
 ASSUMPTIONS = ['misuse of the command line itself (argparse) is outside; the top-level script cvise.py constructs the TestManager outside its try block, so constructor errors surface as a traceback of the C-Vise error class (type and message still as stated)']
